@@ -334,6 +334,15 @@ def destructor_programs():
     cls5 = ("function compute() -> int { return 42; }\n"
             "class Reg { public int v; public constructor() -> Reg { this.v = compute(); return this; } }\n"
             "class Cfg { public static int direct = compute(); public static Reg viaCtor = new Reg(); public int inst = compute(); public constructor() -> Cfg { return this; } }\n")
+    # constructor overloads are chosen from the static argument types too, also through super(...)
+    cls6 = ("class A { public constructor() -> A = default; }\nclass B extends A { public constructor() -> B { super(); } }\n"
+            "class O { public string w; public constructor(A p) -> O { this.w = \"O(A)\"; } public constructor(B p) -> O { this.w = \"O(B)\"; } public constructor(int p) -> O { this.w = \"O(int)\"; } "
+            "public constructor(long p) -> O { this.w = \"O(long)\"; } }\nclass S extends O { public constructor(A p) -> S { super(p); } }\n")
+    out.append(("ctor-overload:static-types", cls6 + "function main() -> void { A ab = new B(); O o1 = new O(ab); echo(o1.w); O o2 = new O(new B()); echo(o2.w); S s = new S(new B()); echo(s.w); long l = 5; O o3 = new O(l); echo(o3.w); O o4 = new O(7); echo(o4.w); }\n",
+                ("ok", ["O(A)", "O(B)", "O(A)", "O(long)", "O(int)"])))
+    cls7 = ("class Base { public constructor() -> Base { return this; } }\nclass Derived extends Base { public constructor() -> Derived { super(); return this; } }\n"
+            "class P { public constructor(Base b) -> P { echo(\"public constructor(Base)\"); return this; } private constructor(Derived d) -> P { echo(\"private constructor(Derived)\"); return this; } }\n")
+    out.append(("ctor-overload:private-more-specific", cls7 + "function main() -> void { P p = new P(new Derived()); }\n", ("ok", ["public constructor(Base)"])))
     out.append(("static:initialiser-calls-function", cls5 + "function main() -> void { echo(Cfg.direct); echo(Cfg.viaCtor.v); Cfg c = new Cfg(); echo(c.inst); }\n", ("ok", ["42", "42", "42"])))
     return out
 
